@@ -224,19 +224,19 @@ Theorem C17_temp_folder_priority : forall arg env shm tmpdir,
 Proof. exact temp_folder_priority. Qed.
 Print Assumptions C17_temp_folder_priority.
 
-(* LOKY, REUSED EXECUTOR.  A fresh executor uses the folder resolved for the call (C17_temp_folder_priority).  Full statement
-   "the loky pool of every call uses the temp_folder resolved for that call" is FALSE of the code (F47): get_memmapping_executor does
-   not look at temp_folder when it decides to reuse the executor and installs the new TemporaryResourcesManager only on NEW
-   executors (both facts regenerated), so a call that reuses the executor of an earlier call writes to the EARLIER call's folder:
-     Parallel(n_jobs=2)(...);  Parallel(n_jobs=2, temp_folder=X)(...)   -> memmaps under the first call's folder, not X *)
-Theorem C17_loky_temp_folder_reuse_refuted :
-  (forall k m prev given, loky_folder_used k m prev given false = given) /\
-  (forall prev given, loky_folder_used reuse_key_has_temp_folder reused_executor_gets_new_manager prev given true = prev) /\
-  exists prev given, loky_folder_used reuse_key_has_temp_folder reused_executor_gets_new_manager prev given true <> given.
-Proof.
-  split; [exact loky_fresh_uses_given|]. split; [exact loky_reused_keeps_old_folder|]. exists 4, 1. vm_compute. discriminate.
-Qed.
-Print Assumptions C17_loky_temp_folder_reuse_refuted.
+(* LOKY, REUSED EXECUTOR.  Whatever executor is alive (created for folder prev) and whether or not it can be reused, the loky
+   pool of a call uses the temp folder resolved for THAT call: the reuse decision of get_memmapping_executor now depends on
+   temp_folder (regenerated fact reuse_key_has_temp_folder), so a call with another temp_folder never inherits an executor's folder.
+   (F47 -- temp_folder missing from the reuse decision -- was found by this statement and is fixed in /repo: cddb0d6.) *)
+Theorem C17_loky_temp_folder_on_reuse : forall prev given other_args_equal,
+  loky_folder_used reuse_key_has_temp_folder reused_executor_gets_new_manager prev given other_args_equal = given.
+Proof. exact loky_folder_is_given. Qed.
+Print Assumptions C17_loky_temp_folder_on_reuse.
+
+(* the hypothesis matters: without temp_folder in the reuse decision (and the manager kept), a reused executor keeps its old folder *)
+Theorem C17_loky_temp_folder_needs_reuse_key : forall prev given, loky_folder_used false false prev given true = prev.
+Proof. exact loky_reused_keeps_old_folder. Qed.
+Print Assumptions C17_loky_temp_folder_needs_reuse_key.
 
 (* BACKEND-OBJECT KWARGS.  Inside Multiprocessing/LokyBackend.configure (regenerated merge) a key passed by the call -- an
    explicit Parallel argument or the setting resolved from the context -- beats the same key carried by the backend object
